@@ -15,6 +15,7 @@ type replayDriver struct {
 	PkgDir string `json:"pkg_dir"` // e.g. internal/querylog
 	File   string `json:"file"`    // relative to /verif/replay
 	Test   string `json:"test"`
+	Race   bool   `json:"race"` // run under the race detector; a reported race (or runtime map-race crash) reproduces
 }
 
 var mutantOverlay map[string]string // set when govc runs on an overlay (selftest)
@@ -45,12 +46,19 @@ func runReplayDriver(s *Session, verif, prop string, r *OblResult, replayPath st
 	os.WriteFile(ovPath, b, 0o644)
 	ctx, cancel := context.WithTimeout(context.Background(), 180*time.Second)
 	defer cancel()
-	cmd := exec.CommandContext(ctx, "go", "test", "-v", "-overlay", ovPath, "-vet=off", "-count=1", "-timeout", "60s", "-run", "^"+d.Test+"$", "./"+d.PkgDir+"/")
+	args := []string{"test", "-v", "-overlay", ovPath, "-vet=off", "-count=1", "-timeout", "120s", "-run", "^" + d.Test + "$", "./" + d.PkgDir + "/"}
+	if d.Race {
+		args = append([]string{"test", "-race"}, args[1:]...)
+	}
+	cmd := exec.CommandContext(ctx, "go", args...)
 	cmd.Dir = s.repo
 	cmd.Env = append(os.Environ(), "GOFLAGS=-mod=mod", "GOPROXY=off", "GOVC_REPLAY="+replayPath)
 	out, _ := cmd.CombinedOutput()
 	text := string(out)
 	reproduced := strings.Contains(text, "GOVC-REPRODUCED")
+	if d.Race && (strings.Contains(text, "WARNING: DATA RACE") || strings.Contains(text, "concurrent map")) {
+		reproduced = true
+	}
 	// update replay file
 	var m map[string]any
 	if rd, err := os.ReadFile(replayPath); err == nil && json.Unmarshal(rd, &m) == nil {
